@@ -347,6 +347,14 @@ fn knobs_for(prop: &str) -> Knobs {
             k.error_bias = 20;
             k.max_states = 6;
         }
+        "C12" => {
+            k.content_bias = 9;
+            k.error_bias = 30;
+            k.eventless_bias = 3;
+            k.final_bias = 3;
+            k.history_bias = 3;
+            k.parallel_bias = 3;
+        }
         _ => {}
     }
     if let Ok(v) = std::env::var("VH_EVENTLESS") {
@@ -365,6 +373,7 @@ pub fn gen_case(prop: &str, seed: u64, index: u64) -> (Case, usize) {
     let use_finals = match prop {
         "C07" => index % 2 == 0,
         "C02" | "C03" | "C01" => index % 8 == 0,
+        "C12" => index % 6 == 0,
         _ => false,
     };
     if use_finals {
@@ -377,6 +386,7 @@ pub fn gen_case(prop: &str, seed: u64, index: u64) -> (Case, usize) {
     let use_history = match prop {
         "C06" => index % 4 == 0 || index % 4 == 2,
         "C01" | "C02" => index % 8 == 2,
+        "C12" => index % 6 == 2,
         _ => false,
     };
     if use_history {
@@ -389,7 +399,7 @@ pub fn gen_case(prop: &str, seed: u64, index: u64) -> (Case, usize) {
     let use_structural = match prop {
         "C01" | "C02" => index % 2 == 1,
         "C06" => index % 4 == 1,
-        "C03" | "C07" => index % 6 == 1,
+        "C03" | "C07" | "C12" => index % 6 == 1,
         _ => false,
     };
     if use_structural {
@@ -404,7 +414,7 @@ pub fn gen_case(prop: &str, seed: u64, index: u64) -> (Case, usize) {
     // a burst is not enqueued atomically: with events the session sends to itself the interleaving
     // would be a race, so such documents get their events one at a time
     let single = p.chance(1, 2) || xml.contains("<send event=\"q");
-    let child = prop == "C07" && p.chance(1, 3);
+    let child = (prop == "C07" || prop == "C12") && p.chance(1, 3);
     (Case { xml, events, single, child, origin: format!("gen prop={} seed={} index={}", prop, seed, index) }, gen_doc::count_states(&d))
 }
 
